@@ -84,6 +84,15 @@ func ZZ_C13_willmod_race(a []int) {
 	zzHammer([]ControlPacket{c, w})
 }
 
+// ZZ_C13_subid_race: same arguments as ZZ_C13_subid.
+func ZZ_C13_subid_race(a []int) {
+	p := NewSubscribe()
+	p.SetPacketID(zzU16("pid"))
+	p.SetSubscriptionID(int(zzU32("sid")))
+	p.AddFilters(NewTopicFilter(string(zzBytes("f", 1)), Opt(zzU8("o")&3)))
+	zzHammer([]ControlPacket{p})
+}
+
 // ZZ_C13_read_race: ReadPacket on distinct private streams from 8 goroutines.
 func ZZ_C13_read_race(a []int) {
 	n := a[1]
